@@ -21,6 +21,15 @@ def enclosing_stmt(n):
     return n
 
 
+def in_pack(n):
+    p = parent(n)
+    while p is not None and not isinstance(p, ast.stmt):
+        if isinstance(p, ast.Call) and u(p.func) == 'struct.pack':
+            return True
+        p = parent(p)
+    return False
+
+
 def operand_derived(expr):
     """Does the narrowed expression depend on anything but literals?"""
     return any(isinstance(x, (ast.Name, ast.Attribute, ast.Subscript, ast.Call)) for x in ast.walk(expr))
@@ -58,14 +67,17 @@ def run(ctx, report):
         mod_ = pa if q.startswith('parse_ad.') else (att if q.startswith('ia32_att.') else arch)
         # local aliases of narrowing constructors:  t_size = tab_size2int[..]
         aliases = {}
-        checked = {}      # name -> (size expr text, call node) for  v = check_imm_size(x, S)
+        checked_all = {}  # name -> [(size expr text, assignment)] for  v = check_imm_size(x, S)
+        index_names = set()
         for n in walk_no_nested(fn):
             if isinstance(n, ast.Assign) and len(n.targets) == 1 and isinstance(n.targets[0], ast.Name):
                 v = n.value
                 if isinstance(v, ast.Subscript) and u(v.value) == 'tab_size2int':
                     aliases[n.targets[0].id] = u(v.slice)
                 if isinstance(v, ast.Call) and u(v.func) == 'check_imm_size' and len(v.args) == 2:
-                    checked[n.targets[0].id] = (u(v.args[1]), n)
+                    checked_all.setdefault(n.targets[0].id, []).append((u(v.args[1]), n))
+                if isinstance(v, ast.Call) and isinstance(v.func, ast.Attribute) and v.func.attr == 'index':
+                    index_names.add(n.targets[0].id)
         for n in walk_no_nested(fn):
             site = None
             if isinstance(n, ast.Call):
@@ -78,7 +90,7 @@ def run(ctx, report):
                     site = ('%s (= tab_size2int[%s])' % (f.id, aliases[f.id]), n.args[0], None, aliases[f.id])
             elif isinstance(n, ast.BinOp) and isinstance(n.op, ast.BitAnd):
                 for a, b in ((n.left, n.right), (n.right, n.left)):
-                    if isinstance(b, ast.Constant) and b.value in MASKS and operand_derived(a):
+                    if isinstance(b, ast.Constant) and b.value in MASKS and 'x86_afs.imm' in u(a) and not in_pack(n):
                         site = ('mask 0x%X' % b.value, a, MASKS[b.value], None)
             if site is None:
                 continue
@@ -89,6 +101,14 @@ def run(ctx, report):
             if not operand_derived(arg):
                 R1.ok(inst, sample='%s: literal' % inst, nontrivial=False)
                 continue
+            if isinstance(arg, ast.Name) and arg.id in index_names:
+                R1.ok(inst, sample='%s: position in a table (%s)' % (q, u(arg)), nontrivial=False)
+                continue
+            checked = {}
+            for nm, lst in checked_all.items():
+                prev = [(sz, a) for sz, a in lst if a.lineno < n.lineno]
+                if prev:
+                    checked[nm] = max(prev, key=lambda t: t[1].lineno)
             argt = u(arg)
             # (a) 32-bit normalisation of a parsed number / displacement
             if width == 32 or (sizeexpr in ('x86_afs.u32',) and q.endswith('arg_set_numpy_imm') is False and width is None and False):
@@ -122,6 +142,20 @@ def run(ctx, report):
                 if filled and 'modifs[se]' in ' '.join(u(t) for t, p in _conds(n, fn)):
                     R1.ok(inst, sample='%s: re-cast of the already checked sign-extended byte to the operand size (widening)' % q)
                     continue
+            # (d) explicit interval guard on the narrowing type's own limit:  if -T.limit//2 <= int(x) < T.limit: x = T(x)
+            tname = u(n.func) if isinstance(n, ast.Call) else None
+            guarded = False
+            if tname:
+                for test, pol in _conds(n, fn):
+                    if pol and isinstance(test, ast.Compare) and len(test.ops) == 2 and isinstance(test.ops[0], ast.LtE) and isinstance(test.ops[1], ast.Lt):
+                        mid = u(test.comparators[0])
+                        lo_t = u(test.left).replace(' ', '').replace('(', '').replace(')', '')
+                        hi_t = u(test.comparators[1]).replace(' ', '')
+                        if mid in (argt, 'int(%s)' % argt) and hi_t == '%s.limit' % tname and lo_t in ('-%s.limit//2' % tname, '-%s.limit/2' % tname, '0'):
+                            guarded = True
+            if guarded:
+                R1.ok(inst, sample='%s: %s(%s) under the interval test -%s.limit/2 <= value < %s.limit' % (q, tname, argt, tname, tname))
+                continue
             R1.violation(inst, 'narrow:%s:%s' % (q, norm(st)[:80]),
                          '%s narrows the operand value %s with %s without a range check for that width: a value that does not fit is silently truncated'
                          % (q, argt, how), where(mod_, n),
@@ -139,6 +173,49 @@ def run(ctx, report):
         else:
             R1.violation(inst, 'pack:%s' % fmt, 'byte emission packs with format %s the value %s: the width emitted is not the width that was range-checked' % (fmt, val),
                          where(arch, pk), witness="asm('mov ax, 0x12345') -> 66 b8 45 23")
+
+    R3 = report.rule('C02.D3', 'one operand-size mode drives the 0x66 prefix, the immediate width and the emitted candidate', floor=4)
+    ac = arch.method('x86_mn', 'asm_candidates')
+    prefix_guard = None
+    for n in walk_no_nested(ac):
+        if isinstance(n, ast.If) and any(isinstance(x, ast.Call) and u(x.func) == 'prefix.append' and x.args and isinstance(x.args[0], ast.Constant) and x.args[0].value == 0x66
+                                         for s2 in n.body for x in ast.walk(s2) if not isinstance(s2, (ast.If, ast.For))):
+            if isinstance(n.test, ast.Compare) and u(n.test.comparators[0]) in ('u16', 'x86_afs.u16'):
+                prefix_guard = u(n.test.left)
+    if prefix_guard is None:
+        raise AnalysisError('asm_candidates: the guard of prefix.append(0x66) was not found')
+    R3.ok('prefix-0x66', sample='0x66 is emitted when %s == u16' % prefix_guard)
+    n_fmt = 0
+    for n in walk_no_nested(ac):
+        if isinstance(n, ast.Call) and u(n.func).endswith('get_im_fmt') and len(n.args) == 3:
+            n_fmt += 1
+            if u(n.args[1]) == prefix_guard:
+                R3.ok('get_im_fmt-mode', sample='get_im_fmt(.., %s, ..)' % prefix_guard)
+            else:
+                R3.violation('get_im_fmt-mode', 'mode:get_im_fmt:%s' % u(n.args[1]), 'the width of an imm/ims immediate is chosen from %s, the 0x66 prefix from %s: in 16-bit operand mode '
+                             'the immediate is checked and emitted with the 32-bit width' % (u(n.args[1]), prefix_guard), where(arch, n), witness="asm('mov ax, 0x1234')")
+    if n_fmt == 0:
+        raise AnalysisError('asm_candidates no longer calls get_im_fmt')
+    conv = [n for n in walk_no_nested(ac) if isinstance(n, ast.If) and isinstance(n.test, ast.Compare) and u(n.test.comparators[0]) in ('u32', 'x86_afs.u32')
+            and isinstance(n.test.ops[0], ast.NotEq) and any(isinstance(x, ast.Assign) and u(x.targets[0]) == 'dib' for s2 in n.body for x in ast.walk(s2))]
+    if not conv:
+        R3.violation('fixed-dib-mode', 'mode:fixed-dib', 'fixed-width immediates (u32/s32 rows) are no longer narrowed to 16 bits in 16-bit operand mode', where(arch, ac))
+    for n in conv:
+        if u(n.test.left) == prefix_guard:
+            body = ' ; '.join(norm(x) for x in n.body)
+            if 'dib = u16' in body and 'dib = s16' in body:
+                R3.ok('fixed-dib-mode', sample='u32->u16 and s32->s16 when %s != u32' % prefix_guard)
+            else:
+                R3.violation('fixed-dib-mode', 'mode:fixed-dib:body', 'the 16-bit narrowing of fixed-width immediates no longer maps u32->u16 and s32->s16: %s' % body[:100], where(arch, n))
+        else:
+            R3.violation('fixed-dib-mode', 'mode:fixed-dib:%s' % u(n.test.left), 'fixed-width immediates are narrowed under %s, the prefix is driven by %s' % (u(n.test.left), prefix_guard), where(arch, n))
+    outs = [n for n in walk_no_nested(ac) if isinstance(n, ast.Call) and u(n.func) == 'candidate_out.append']
+    for n in outs:
+        t = n.args[0]
+        if isinstance(t, ast.Tuple) and len(t.elts) == 4 and u(t.elts[3]) == prefix_guard:
+            R3.ok('candidate-mode', sample='candidate tuple carries %s' % prefix_guard)
+        else:
+            R3.violation('candidate-mode', 'mode:candidate', 'the candidate tuple no longer carries %s as its operand mode: %s' % (prefix_guard, norm(n)[:80]), where(arch, n))
 
     R2 = report.rule('C02.D2', 'range table of check_imm_size and struct formats are the width semantics', floor=10)
     cis = arch.func('check_imm_size')
@@ -259,11 +336,16 @@ MUTANTS = [
      "                    v = check_imm_size(args_sample[index_im][x86_afs.imm], size)\n                    if v is None:\n                        log.debug(\"cannot encode this val in size %s %x!\", size, args_sample[index_im][x86_afs.imm])\n                        good_c= False\n                        break\n",
      "                    v = args_sample[index_im][x86_afs.imm]\n", 'C02.D1'),
     ('s08-bound', 'miasmx/arch/ia32_arch.py', "    elif size == s08 and -0x80 <= j < 0x80:", "    elif size == s08 and -0x80 <= j <= 0x80:", 'C02.D2'),
-    ('u16-upper', 'miasmx/arch/ia32_arch.py', "    elif size == u16 and 0 <= i < 0x10000:", "    elif size == u16 and 0 <= i < 0x100000:", 'C02.D2'),
+    ('u16-upper', 'miasmx/arch/ia32_arch.py', "    elif size == u16 and -0x8000 <= i < 0x10000:", "    elif size == u16 and -0x8000 <= i < 0x100000:", 'C02.D2'),
     ('check-other-size', 'miasmx/arch/ia32_arch.py', "                    r[x86_afs.imm] = tab_size2int[t](v)\n", "                    r[x86_afs.imm] = tab_size2int[s08](v)\n", 'C02.D1'),
     ('s16-fmt', 'miasmx/arch/ia32_reg.py', "self.s16:'h',", "self.s16:'H',", 'C02.D2'),
     ('ret-cast', 'miasmx/arch/ia32_arch.py', "    elif size == s16 and -0x8000 <= j < 0x8000:\n        return int16(imm)", "    elif size == s16 and -0x8000 <= j < 0x8000:\n        return uint16(imm)", 'C02.D2'),
     ('pack-mask', 'miasmx/arch/ia32_arch.py', "out_byte+=struct.pack(x86_afs.dict_size[c[x86_afs.size]], int(c[x86_afs.imm]))", "out_byte+=struct.pack(x86_afs.dict_size[c[x86_afs.size]], int(c[x86_afs.imm]) & 0xff)", 'C02.D1'),
+    ('imm-mode-admode', 'miasmx/arch/ia32_arch.py', "get_im_fmt(c.modifs, self.mnemo_mode, dib)", "get_im_fmt(c.modifs, self.admode, dib)", 'C02.D3'),
+    ('att-unguarded', 'miasmx/arch/ia32_arch.py', "                if -t_size.limit//2 <= int(a[x86_afs.imm]) < t_size.limit:\n                    a[x86_afs.imm] = t_size(a[x86_afs.imm])\n", "                if True:\n                    a[x86_afs.imm] = t_size(a[x86_afs.imm])\n", 'C02.D1'),
+    ('att-guard-wide', 'miasmx/arch/ia32_arch.py', "                if -t_size.limit//2 <= int(a[x86_afs.imm]) < t_size.limit:", "                if -t_size.limit//2 <= int(a[x86_afs.imm]) < 2*t_size.limit:", 'C02.D1'),
+    ('pack-16-mask', 'miasmx/arch/ia32_arch.py', "                if c[x86_afs.size] in [u08, s08, u16, s16, u32, s32]:\n", "                if mnemo_mode == 'u16' and c[x86_afs.size] in [u32, s32] and not c.get(x86_afs.ad,False):\n                    out_byte+=struct.pack(x86_afs.dict_size[mnemo_mode], int(c[x86_afs.imm]&0xffff))\n                elif c[x86_afs.size] in [u08, s08, u16, s16, u32, s32]:\n", 'C02.D1'),
+    ('fixed-dib-no16', 'miasmx/arch/ia32_arch.py', "                        if dib == u32:\n                            dib = u16\n", "                        if dib == u32:\n                            dib = u32\n", 'C02.D3'),
     ('forge-nocheck', 'miasmx/arch/ia32_arch.py', "                v = check_imm_size(a.get(x86_afs.imm, 0), ad[x86_afs.imm])\n                if v is None:\n                    log.debug(\"cannot encode this val in size forge!\")\n                    return None, None\n",
      "                v = tab_size2int[ad[x86_afs.imm]](a.get(x86_afs.imm, 0))\n", 'C02.D1'),
 ]
